@@ -20,7 +20,7 @@ CHECKS = {
  'C19': dict(
     technique="exhaustive enumeration of magnitudes x units for the rescaling helpers, and of operations / recipe programs for instruction texts; token oracle against the true amounts from the reference model",
     text="Rescaling helpers on {1, 2.5, 9.99} x 10^e (e = -12..6) x signs x units / object kinds; instruction text of ~430 direct operations (sources with liquid / solids only / enzymes only, quantities 1e-9..1 in L, g, mol, U, whole-content transfers, dilute, fill_to, "
-         "create_solution(_from), constructor) and of the last step of every program of <= 2/3 steps: every '<number> <unit>[ of <name>]' token must be a true amount of the operation at its displayed precision; instruction histories of plate wells are append-only."+CFG,
+         "create_solution(_from), constructor) and of the last step of every program of <= 2/3 steps: every '<number> <unit>[ of <name>]' token must be a true amount of the operation at its displayed precision; instruction histories of plate wells are append-only; a printed zero stands for less than one micro-unit."+CFG,
     note="Lines without an amount token are not judged; the candidate set of true amounts is generous, so only factor-level errors are reported. " + TRUST,
     ref="DESIGN.md section 4 C19"),
  'C09': dict(
@@ -54,7 +54,7 @@ CHECKS = {
  'C11': dict(
     technique="exhaustive enumeration of dilute/fill_to specifications derived from the current state by the reference model; results judged by definition",
     text="7 mixture classes x solute x solvent (present/other) x 17 concentration spellings x 6 target factors x 4 capacity classes for dilute; 10 unit spellings x 4 factors x capacities x 3 solvent kinds for fill_to: "
-         "only the solvent increases, target met, capacity respected, refusal above the current concentration / below the current quantity; every request with an unlimited or just-too-small vessel also as a recipe step (same outcome and container as the direct call); every accepted dilution also under a new name."+CFG,
+         "only the solvent increases, target met, capacity respected, refusal above the current concentration / below the current quantity; every request with an unlimited or just-too-small vessel also as a recipe step (same outcome and container as the direct call); every accepted dilution also under a new name; enzyme fillers in every unit (a filler that cannot be measured in the unit of the target must be refused)."+CFG,
     note="Factor 1 and a vessel whose capacity equals the result volume exactly are don't-care. " + TRUST,
     ref="DESIGN.md section 4 C11"),
  'C12': dict(
@@ -89,7 +89,7 @@ CHECKS = {
     technique="explicit-state exploration of the implementation: BFS over operation histories with canonical-state hashing; invariant (conservation + frame) on every transition",
     text="Every transfer reachable by the bounded exhaustive enumeration (all ordered pairs of source/destination forms incl. same-plate "
          "regions x 4 units from 3 base states, every unit spelling x size x pairing form, and all histories of <= 3/4 operations over a "
-         "48-action alphabet, plus a world of vessels holding substances that share a name, 44 actions to depth 2/3) is executed on the real API; totals per substance identity (name, kind, parameters; never through Substance.__eq__) over the whole world and bit-identity of untouched wells are checked on each; the geometry sweep also with every transfer made twice through the same slice objects; requests for almost everything a source holds (fractions 0.9999 .. 0.99999999 of the reached content) and a world with femtomole traces."+CFG,
+         "48-action alphabet, plus a world of vessels holding substances that share a name, 44 actions to depth 2/3) is executed on the real API; totals per substance identity (name, kind, parameters; never through Substance.__eq__) over the whole world and bit-identity of untouched wells are checked on each; the geometry sweep also with every transfer made twice through the same slice objects; requests for almost everything a source holds (fractions 0.9999 .. 0.99999999 of the reached content), a world with femtomole traces, and lists that name a well twice (conservation is judged for every returning transfer)."+CFG,
     note="Bounded depth and data tables (3 valuations); tolerance 1e-9 storage units per written well. " + TRUST,
     ref="DESIGN.md section 4 C01"),
  'C02': dict(
@@ -107,7 +107,7 @@ CHECKS = {
  'C04': dict(
     technique="explicit-state exploration with structural fingerprints of every argument and every earlier result before/after each call (returned or raised)",
     text="Along every history of the full menu incl. failing calls, every argument and every object produced earlier is re-fingerprinted after each call; "
-         "all (18 slice geometries x 7 x 7 operation pairs) with one slice object held across both calls; every action as recipe (declare, add, bake, re-use results); every list handed to a call (solutes, concentrations, quantities, initial contents) compared with its value before; held slices also as source / destination of plate-to-plate transfers; every Substance (attributes and hash) fingerprinted around every call."+CFG,
+         "all (18 slice geometries x 7 x 7 operation pairs) with one slice object held across both calls; every action as recipe (declare, add, bake, re-use results); every list handed to a call (solutes, concentrations, quantities, initial contents) compared with its value before; held slices also as source / destination of plate-to-plate transfers; every Substance (attributes and hash) fingerprinted around every call; the whole recipe (results, stages, step records) fingerprinted around the refused bake of every recipe program of <= 2/3 steps."+CFG,
     note="Fingerprints cover name, exact contents, volume, capacity, instructions, every well, labels, slice bindings, substance attributes. " + TRUST,
     ref="DESIGN.md section 4 C04"),
  'C10': dict(
